@@ -8,6 +8,7 @@ func init() { gens["C08"] = genC08 }
 
 func genC08(tier string, r *rng, emit func(string)) {
 	genXKinds("C08", emit)
+	genXKinds("C08fn", emit)
 	thorough := tier == "thorough"
 	// (1) every shape of rank 1-4 (dims <= 3) x every non-empty axis subset, contiguous row-major,
 	// Sum/Min/Max; every single axis + all-axes for the arg-reductions; values with ties
